@@ -151,6 +151,9 @@ def run(rep, F, ctx):
     setters.setter(rep, F, cg, {k: v for k, v in tb.items() if k.startswith('<sys::fs::chmod::Chmod>') or k.startswith('<sys::fs::chown::Chown>')})
 
     setters.traversal_setup(rep, F, cg)
+    import siteguard as _sg
+    _t = engine.load_table('site_guards.json')
+    _sg.site_guard(rep, F, cg, _t, _t['_groups']['C11'])
     return engine.finish(
         rep, 'other', EXPLANATION,
         assumptions=['the setter table transcribes the documented builder behaviour'],
